@@ -22,7 +22,7 @@ func c01Cfgs(hasVar, hasDT bool) []sweepCfg {
 		for _, silent := range []bool{false, true} {
 			varsSets := []map[string]string{nil}
 			if hasVar {
-				varsSets = []map[string]string{{"x": "i:1"}, nil, {"x": `j:{"a":[1,"a"]}`}}
+				varsSets = []map[string]string{{"x": "i:1"}, nil, {"x": `j:{"a":[1,"a"]}`}, {"x": `j:["a",1,[2]]`}}
 			}
 			for _, vs := range varsSets {
 				out = append(out, sweepCfg{Num: num, Silent: silent, Vars: vs})
@@ -41,7 +41,7 @@ func checkC01(c Case) *Failure {
 }
 
 func runC01(r *Run) {
-	r.Rule("every abstract path with <= N nodes over the full language (7 primaries, 31 accessor/method steps incl. .decimal and the six datetime methods, filters, unary/binary arithmetic, six comparisons, && || ! is unknown exists starts with like_regex, predicates as path items) plus every construct nested directly in filters and subscripts, x {lax,strict} x every JSON document with <= K nodes plus 27 special documents (datetime strings, numeric strings, negative/fractional/large numbers, nesting) x {float64,json.Number} x {verbose,silent} x {variable bound, unbound, bound to an object} x {WithTZ, context zone} where the path can observe them; oracle: the reference interpreter (items in order, multiset where member order is open; error class); non-trivial = the reference yields items or an error")
+	r.Rule("every abstract path with <= N nodes over the full language (7 primaries, 31 accessor/method steps incl. .decimal and the six datetime methods, filters, unary/binary arithmetic, six comparisons, && || ! is unknown exists starts with like_regex, predicates as path items) plus every construct nested directly in filters and subscripts, x {lax,strict} x every JSON document with <= K nodes plus 27 special documents (datetime strings, numeric strings, negative/fractional/large numbers, nesting) x {float64,json.Number} x {verbose,silent} x {variable bound to a number, unbound, bound to an object, bound to an array} x {WithTZ, context zone} where the path can observe them; oracle: the reference interpreter (items in order, multiset where member order is open; error class); non-trivial = the reference yields items or an error")
 	g := newFullGen()
 	N, K := 3, 3
 	if r.Thorough() {
